@@ -945,6 +945,11 @@ func (self *ReplicationClient) ProcessReplayLock() {
 
 	aof := self.aof
 	self.replayAofIndex = aof.aofFileIndex
+	if resumeIndex := uint32(self.currentAofId[4]) | uint32(self.currentAofId[5])<<8 | uint32(self.currentAofId[6])<<16 | uint32(self.currentAofId[7])<<24; resumeIndex != 0 {
+		// what has been replayed so far ends in the file of the position the stream resumes from; after an
+		// interrupted file transfer that is an earlier file than the one the log was last switched to
+		self.replayAofIndex = resumeIndex
+	}
 	for !self.closed {
 		aofLock := <-self.replayQueue
 		if aofLock == nil {
